@@ -1008,6 +1008,10 @@ impl Property for P14 {
         }
     }
 
+    fn probes() -> Vec<usize> {
+        vec![pb::eof_inside_prefix, pb::eof_inside_payload, pb::eintr_mid_prefix, pb::eintr_mid_payload, pb::eintr_before_first_byte, pb::prefix_split_across_reads, pb::payload_split_across_reads, pb::decode_error_then_good_frame, pb::frame_len_eq_max_len, pb::frame_len_eq_max_len_plus_1, pb::zero_length_frame, pb::short_write_mid_prefix, pb::short_write_mid_payload, pb::clean_end_repeated, pb::large_frame_ge_64k, pb::failed_encode_partial_bytes, pb::buffer_shrinks_between_frames, pb::buffer_grows_between_frames, pb::rewrap_at_boundary, pb::max_len_changed_mid_run]
+    }
+
     fn rule() -> &'static str {
         "sweeps on fixed 2-4 frame workloads per payload family: every cut offset x {whole,1,3}-byte delivery; every uniform chunk size on \
          the read and on the write side; EINTR before every read call and before every write call; a fatal error before every call; all \
